@@ -31,6 +31,9 @@ type PropConfig struct {
 	// Probes: obligation names with which the replay oracle is run in the thorough tier even though nothing failed
 	// (a bounded search on the real code, reported as bounded and never counted as proof; a discrepancy is a violation).
 	Probes []string
+	// QuickProbes: probes that also run in the quick tier - bounded stand-ins for functions the verifier cannot reach
+	// (stated as such in the claim), cheap enough to run on every change.
+	QuickProbes []string
 }
 
 type Run struct {
@@ -336,8 +339,17 @@ func (r *Run) report(updateLock, verbose, noEvidence bool) int {
 		}
 	}
 	// thorough tier: the bounded oracles on the real code, whatever the verifier said
-	if (r.tier.Name == "thorough" || os.Getenv("GOVC_PROBES") != "") && r.cfg.Replay != nil {
-		for _, p := range r.cfg.Probes {
+	probes := r.cfg.QuickProbes
+	if r.tier.Name == "thorough" || os.Getenv("GOVC_PROBES") != "" {
+		probes = append(append([]string{}, r.cfg.QuickProbes...), r.cfg.Probes...)
+	}
+	if len(probes) > 0 && r.cfg.Replay != nil {
+		seenProbe := map[string]bool{}
+		for _, p := range probes {
+			if seenProbe[p] {
+				continue
+			}
+			seenProbe[p] = true
 			rr := r.cfg.Replay(r, &Obligation{Name: p, Verdict: "probe", Note: "oracle probe"})
 			if rr == nil {
 				continue
